@@ -10,17 +10,16 @@ from .common import func_params, value_returns, last_return, XLERR, XLT, raise_c
 
 PROPERTY = 'C20'
 EXPLANATION = (
-    'Decided from source: (C20.1) library binding: each Excel parameter of PV/PMT reaches the numpy-financial parameter of the same '
-    'meaning (rate, nper, pmt/pv, fv, type->when), IRR hands over all of its flattened cash flows, XIRR applies Newton to _xnpv of '
-    'the same flows and dates, and no cash-flow list is filtered by truthiness (a zero flow is a flow); (C20.2) parameters matter: '
-    'every parameter of IRR/NPV/PMT/PV/SLN/XIRR/XNPV is in the backward slice of *every* value-returning return (frozen, reasoned '
-    'exceptions), so no shortcut path forgets an argument; (C20.3) reflected-operator hazard: the reflected arithmetic dunders of '
-    'the value classes alias the forward ones (a - b computed as b - a when a is native), so no non-commutative operator in these '
-    'functions may have a possibly-native left operand and a value-class right operand (positive control: VDB); (C20.4) guards: the '
-    'XIRR/XNPV length-mismatch guard dominates the computation and gives #NUM!, non-convergence is converted to #NUM!; (C20.5) '
-    'shape of the closed forms: NPV discounts flow i (0-based) by (1+rate)^(i+1), XNPV by (1+rate)^((d_i-d_0)/365), SLN = '
-    '(cost-salvage)/life.'
-    ' (C20.6) NPV on witness flows incl. zero flows first, in the middle and last, and SLN, as the evaluator calls them: a zero flow occupies a period.')
+    'Decided from source: (C20.1) library binding: each Excel parameter of PV/PMT reaches the numpy-financial '
+    'parameter of the same meaning, IRR hands over all of its flattened cash flows, no cash-flow list is filtered '
+    "by truthiness (known finding F38 for XIRR/XNPV), and _xirr interpreted with a recording model of scipy's "
+    'newton hands over r -> _xnpv(r, values, dates) and starts at the guess; (C20.2) every parameter of '
+    'IRR/NPV/PMT/PV/SLN/XIRR/XNPV is in the backward slice of every value-returning return; (C20.3) '
+    'reflected-operator hazard: no non-commutative operator with a possibly-native left operand and a value-class '
+    'right operand (positive control: VDB); (C20.4) the XIRR/XNPV length-mismatch guard dominates the computation '
+    'and gives #NUM!, non-convergence is converted to #NUM!; (C20.5) XNPV discounts by (1+rate)^((d_i-d_0)/365), '
+    'SLN = (cost-salvage)/life; (C20.6) NPV on witness flows incl. zero flows first, in the middle and last, and '
+    'SLN, as the evaluator calls them: a zero flow occupies a period.')
 NOT_DECIDED = 'the defining equations as numeric identities, root properties, linearity'
 TRUSTED = ['numpy_financial.pv/pmt/irr parameter conventions', 'scipy.optimize.newton signature']
 
